@@ -115,12 +115,15 @@ def _container(items, container, bare_ok):
     return items
 
 
-def build(m, routes=None, perm=None, backend="lambda", as_ode=False, container="list"):
+def build(m, routes=None, perm=None, backend="lambda", as_ode=False, container="list", pool=None):
     """Return (model, order).  routes: per-event route names (default all "event");
     perm: order in which IR events are handed over (default identity);
     as_ode: ignore events and enter the whole right-hand side as explicit ode= strings;
     container: how the constructor arguments are wrapped ("list", "tuple", or "bare": a lone birth_death / ode
-    entry handed over as the object itself, which the setters document as accepted)."""
+    entry handed over as the object itself, which the setters document as accepted);
+    pool: a dict that keeps the Event objects and legacy-list Transitions created for this model, so that a second
+    build with the same dict hands the SAME Python objects to another model (bare Transitions passed as events are
+    always fresh: add_event documents that it rewrites them)."""
     SimulateOde, Transition, _E, ode_utils = _pg()
     events = m.get("events", [])
     n_e = len(events)
@@ -149,7 +152,12 @@ def build(m, routes=None, perm=None, backend="lambda", as_ode=False, container="
     else:
         for ei in perm:
             ev, r = events[ei], routes[ei]
-            obj = event_object(ev, r)
+            if pool is not None and r not in ("trans", "add_trans"):
+                if (ei, r) not in pool:
+                    pool[(ei, r)] = event_object(ev, r)
+                obj = pool[(ei, r)]
+            else:
+                obj = event_object(ev, r)
             if r in ("event", "event_eq", "trans"):
                 ctor_event.append(obj)
                 o_event.append(ei)
